@@ -29,6 +29,8 @@ def run_serializer(rec, rnd, cycles, case):
             circ = SimpleTestCircuit(dut, exclude={"serialized_req_method", "serialized_resp_method"})
             top = ModuleConnector(circ=circ, req=req, resp=resp)
             sim = PysimSimulator(top, max_cycles=cycles + 60)
+            from .. import txsan
+            txsan.maybe_attach(sim, case)
         except Exception:
             rec.check("constructs", False, case=case, detail=traceback.format_exc()[-1200:])
             return
